@@ -10,7 +10,9 @@
      - a required block must have been overridden,
      - text outside blocks of t0 .. t(n-1) is dropped.
    Following extends fails for a missing template, for a template that was already extended
-   (a cycle) and for a second extends tag in one template.
+   (a cycle) and for a second extends tag in one template.  A template that exists but does not
+   load (syntax error, failing loader) is not missing: whoever names it - render, extends,
+   include (also in a list and with `ignore missing`), import - fails with its load error.
    An include renders the first existing template of its list - a chain of its own - with the
    includer's current variables; an import binds what the imported template defines at its top
    level ({% import %} renders it for that, {% from %} only evaluates its statements: no block
@@ -83,10 +85,11 @@ Fixpoint first_template (v : venv) (es : list nexpr) : outcome (option (list ite
   match es with
   | [] => Ok None
   | e :: r => bind (eval_name e v) (fun n =>
-              match assoc n E with
+              bind (find_tmpl E n) (fun o =>            (* a template that exists but does not load is not missing *)
+              match o with
               | Some top => Ok (Some top)
               | None => first_template v r
-              end)
+              end))
   end.
 
 Definition render_include (quiet : bool) (es : list nexpr) (ign : bool) (s : sst) : outcome sst :=
@@ -206,10 +209,11 @@ Fixpoint parent_of (v : venv) (seen : list name) (top : list item) (found : opti
     | Some _ => Err E_InvalidOperation                          (* a second extends *)
     | None => bind (eval_name e v) (fun n =>
               if memZ n seen then Err E_InvalidOperation        (* a cycle *)
-              else match assoc n E with
+              else bind (find_tmpl E n) (fun o =>
+                   match o with
                    | None => Err E_TemplateNotFound
                    | Some ptop => parent_of v seen r (Some (n, ptop))
-                   end)
+                   end))
     end in
   match top with
   | IExtends e :: r => ext e r
@@ -234,9 +238,12 @@ Fixpoint scall (E : env) (fuel : nat) (t : stask) (s : sst) : outcome sst :=
   end.
 
 Definition srender (fuel : nat) (E : env) (main : name) (ctx : frame) : outcome (list Z) :=
-  match assoc main E with
-  | None => Err E_TemplateNotFound
-  | Some top =>
+  match find_tmpl E main with
+  | Err c => Err c
+  | Panic => Panic
+  | OutOfGas => OutOfGas
+  | Ok None => Err E_TemplateNotFound
+  | Ok (Some top) =>
       match scall E fuel (STemplate false [] [] top) (mkSst (mkVenv ctx [[]]) []) with
       | Ok s => Ok (sout s)
       | Err c => Err c
@@ -265,4 +272,5 @@ Definition wf_top (top : list item) : bool :=
   forallb (fun it => negb (is_head it)) rest
   && (match top with it :: _ => if is_head it then forallb is_quiet rest else true | [] => true end)
   && nodupZ (map fst (blocks_of top)).
-Definition wf_env (E : env) : bool := forallb (fun nt => wf_top (snd nt)) E.
+Definition wf_env (E : env) : bool :=
+  forallb (fun nt => match snd nt with TGood top => wf_top top | TBad _ => true end) E.
